@@ -843,6 +843,50 @@ async fn log_state_mismatch(finals: &[(u64, Obs)], keys: &[(String, String)]) ->
     None
 }
 
+/// Tells the recorded async-raft-ext skipped-apply defect apart from any other way of losing an applied entry. Both forms
+/// of the dependency's defect happen at a leader change and skip what the node had not applied yet at that moment: (1) a
+/// new leader's blank entry sets last_applied to its own index (core/client.rs: Internal post-commit), (2)
+/// update_current_leader clears the follower's cache of received-but-unapplied entries and the next drain starts at the
+/// first entry received afterwards (core/append_entries.rs). Either way a skipped entry is one the node held in its log,
+/// unapplied, at the moment its raft core changed leader / term / state. A recorder on every incarnation's metrics channel
+/// notes each such change with the applied index seen before it and the last log index seen at it. A publish at or below
+/// the node's applied index that the node neither serves nor has in the key's history, and that lies in none of those
+/// windows, was lost by something else - the product's apply path - and is returned here.
+async fn unattributable_skip(finals: &[(u64, Obs)], contents: &[(String, String)]) -> Option<String> {
+    use async_raft_ext::raft::EntryPayload;
+    use rnacos::raft::store::ClientRequest;
+    let changes = leader_changes();
+    for (nid, o) in finals {
+        let n = match node(*nid) {
+            Some(n) => n,
+            None => continue,
+        };
+        let m = metrics(&n);
+        let es = match n.app.raft_store.get_log_entries(1, m.last_log_index + 1).await {
+            Ok(es) => es,
+            Err(_) => continue,
+        };
+        for e in es.iter().filter(|e| e.index <= m.last_applied) {
+            if let EntryPayload::Normal(nm) = &e.payload {
+                if let ClientRequest::ConfigSet { value, .. } = &nm.data {
+                    // only keys that are never removed: a remove wipes the key's history with it
+                    let publish_only: Vec<String> = (0..2u8).map(|k| { let (t, g, d) = c06_key(k); key_str(t, g, d) }).collect();
+                    if let Some((ks, c)) = contents.iter().find(|(ks, c)| c == value.as_ref() && publish_only.contains(ks)) {
+                        let hist = o.hist.get(ks).cloned().unwrap_or_default();
+                        let cur = o.cfg.get(ks).cloned().flatten().map(|v| v.0);
+                        let skipped = hist.len() < 100 && !hist.iter().any(|h| &h.1 == c) && cur.as_deref() != Some(c.as_str());
+                        if skipped && !changes.iter().any(|ch| ch.node == *nid && ch.applied_before < e.index && e.index <= ch.log_at) {
+                            let near: Vec<String> = changes.iter().filter(|ch| ch.node == *nid).map(|ch| format!("term {}: applied {} log {}..{}", ch.term, ch.applied_before, ch.log_before, ch.log_at)).collect();
+                            return Some(format!("node {} holds the entry publishing {} to {} at log index {} (term {}), at or below its applied index {}, but neither serves it nor has it in the key's history; the entry was not among those the node held unapplied at any of its leader changes ({}), so it was not lost by the dependency's leader-change defect", nid, c, ks.replace('\u{2}', "|"), e.index, e.term, m.last_applied, near.join("; ")));
+                        }
+                    }
+                }
+            }
+        }
+    }
+    None
+}
+
 /// Signature of the recorded async-raft-ext defect "conflicting suffix never repaired": a follower still holds an entry
 /// of another term at an index where the leader has one.
 async fn conflict_signature() -> Option<String> {
@@ -891,6 +935,7 @@ pub async fn exec_c06(script: Value) -> ExecResult {
     let client_timeout = 20_000u64;
     let tainted = LRc::new(RefCell::new(0u64));
     let direct = LRc::new(RefCell::new(Vec::<String>::new()));
+    record_leader_changes();
     let r: VResult<()> = async {
         cluster_up(&root, &cfg, id).await?;
         // the leader and term under which the other members were admitted
@@ -1085,6 +1130,9 @@ pub async fn exec_c06(script: Value) -> ExecResult {
                 }
             }
             if let Some(sig) = log_state_mismatch(&obs_now, &key_table).await {
+                if let Some(u) = unattributable_skip(&obs_now, &contents).await {
+                    vfail!(&format!("{}.applied_entry_not_served", id), "{}", u);
+                }
                 vfail!(&format!("{}.entry_skipped_at_leader_change", id), "{}; 60 simulated s after all faults stopped no node accepts a config write [[{}]]", sig, st.join("; "));
             }
             vfail!(&format!("{}.liveness", id), "60 simulated s after all faults stopped (all nodes up, network healed) no node accepts a config write [[{}]] last error: {}", st.join("; "), last_probe_err);
@@ -1182,6 +1230,9 @@ pub async fn exec_c06(script: Value) -> ExecResult {
                 }
             }
             if let Some(sk) = &skipped_apply {
+                if let Some(u) = unattributable_skip(&finals, &contents).await {
+                    vfail!(&format!("{}.applied_entry_not_served", id), "{}", u);
+                }
                 vfail!(&format!("{}.entry_skipped_at_leader_change", id), "{} [[{}]]", sk, states.join("; "));
             }
             if let Some(c) = &conflict_sig {
@@ -1216,6 +1267,9 @@ pub async fn exec_c06(script: Value) -> ExecResult {
                                 }
                             }
                             if in_logs * 2 > total {
+                                if let Some(u) = unattributable_skip(&finals, &contents).await {
+                                    vfail!(&format!("{}.applied_entry_not_served", id), "{}", u);
+                                }
                                 vfail!(&format!("{}.entry_skipped_at_leader_change", id), "publish of {} to key {} (step {}) was answered with success; {} of {} nodes hold the entry in their logs and report it applied, but no node serves it or has it in the key's history", c, ks, o.step, in_logs, total);
                             }
                         }
@@ -1231,9 +1285,15 @@ pub async fn exec_c06(script: Value) -> ExecResult {
                             if let (Some(pa), Some(pb)) = (pa, pb) {
                                 if pa <= pb {
                                     if let Some(sk) = skipped_apply_signature(&finals, &contents).await {
+                                        if let Some(u) = unattributable_skip(&finals, &contents).await {
+                                            vfail!(&format!("{}.applied_entry_not_served", id), "{}", u);
+                                        }
                                         vfail!(&format!("{}.entry_skipped_at_leader_change", id), "{}", sk);
                                     }
                                     if let Some(sk) = log_state_mismatch(&finals, &key_table).await {
+                                        if let Some(u) = unattributable_skip(&finals, &contents).await {
+                                            vfail!(&format!("{}.applied_entry_not_served", id), "{}", u);
+                                        }
                                         vfail!(&format!("{}.entry_skipped_at_leader_change", id), "{}", sk);
                                     }
                                 }
@@ -1260,9 +1320,15 @@ pub async fn exec_c06(script: Value) -> ExecResult {
             }
             if !allowed.contains(&cur) {
                 if let Some(sk) = skipped_apply_signature(&finals, &contents).await {
+                    if let Some(u) = unattributable_skip(&finals, &contents).await {
+                        vfail!(&format!("{}.applied_entry_not_served", id), "{}", u);
+                    }
                     vfail!(&format!("{}.entry_skipped_at_leader_change", id), "{}", sk);
                 }
                 if let Some(sk) = log_state_mismatch(&finals, &key_table).await {
+                    if let Some(u) = unattributable_skip(&finals, &contents).await {
+                        vfail!(&format!("{}.applied_entry_not_served", id), "{}", u);
+                    }
                     vfail!(&format!("{}.entry_skipped_at_leader_change", id), "{}", sk);
                 }
             }
